@@ -56,6 +56,8 @@ def feval(t, env, eng, depth=0):
 POINTS = [((F(1, 2), F(5, 6)), (0, 0)), ((F(1, 6), F(1, 2)), (0, 0)), ((F(5, 6), F(1, 2)), (0, 0)), ((F(1, 2), F(1, 6)), (0, 0)),
           ((F(3, 4), F(1, 4)), (1, 1)), ((F(1, 4), F(3, 4)), (1, 1)),      # anti-diagonal: owner is up-right
           ((F(1, 4), F(1, 4)), (-1, 1)), ((F(3, 4), F(3, 4)), (-1, 1))]    # main diagonal: owner is up-left
+# and 1/64 on either side of each diagonal (an offset of the frame by more than that moves them across)
+POINTS += [((F(a, 4), F(b, 4) + s_ * F(1, 64)), (0, 0)) for a, b in ((1, 3), (3, 1), (1, 1), (3, 3)) for s_ in (-1, 1)]
 
 
 def run(ctx, crate, tag=""):
@@ -112,6 +114,12 @@ def run(ctx, crate, tag=""):
                 want = model_base_cell(X + 2 * ox * eps, Y + 2 * oy * eps)
                 if want is None: continue
                 env = {px: float(X), py: float(Y)}
+                # the two keys themselves: the casts must give the column and the row of the point
+                from rules.common import feval as cfeval
+                ci, rj = cfeval(col[0], env, e0), cfeval(row[0], env, e0)
+                if ci != I or rj != J0:
+                    bad.append({"column": I, "row": J0, "point": (float(X), float(Y)), "on_seam": False, "code": "column %s, row %s" % (ci, rj), "model": "column %d, row %d" % (I, J0)})
+                    continue
                 vals = tuple(feval(k, env, e1) for k in keys)
                 if any(v is None for v in vals):
                     ctx.undecided(clause, FN + ":eval(%d,%d)" % (I, J0), "cannot evaluate the diagonal tests at (%s, %s)" % (X, Y), at=b.span); break
